@@ -81,7 +81,12 @@ def wiring_runs(P):
         cache = Opaque("cache_arg")
         log = []
         Uw, Vw = alg.sym("U_wind"), alg.sym("V_wind")
-        zsym, prof = alg.sym("z_grid"), Opaque("profiles_out")
+        # the grid vertical_profiles returns: nz + 1 strictly increasing nodes, the last one the measurement height (C09 R-GRID)
+        zsym, prof = SymArr("z_grid", 1, shape=(cfg.attrs["domain"].attrs["nz"] + ONE,)), Opaque("profiles_out")
+        import npsem as _np
+        _np.GRID_CONTRACTS.clear()
+        _zatom = next(iter(zsym.val.top_atoms()))
+        _np.GRID_CONTRACTS[_zatom] = (tower.attrs["z_m"], cfg.attrs["domain"].attrs["nz"])
         ideal = alg.sym("ideal_flux")
         grid, conc, flx = Opaque("grid_out"), alg.sym("conc_out"), alg.sym("flx_out")
         stubs = {
@@ -92,6 +97,7 @@ def wiring_runs(P):
         }
         mi = alg.sym("met_index", integer=True)
         res = CM.run_paths(P, "bldfm.interface", "run_bldfm_single", [cfg, tower], {"met_index": mi, "surface_flux": flux, "cache": cache}, stubs=stubs)
+        _np.GRID_CONTRACTS.clear()
         out.append(dict(z0=z0_given, z0_mode=z0_mode, flux=flux_given, levels=levels_kind, lv=lv, full=full_output, met_list=met_list, cfg=cfg, tower=tower, log=log, res=res,
                         syms=dict(Uw=Uw, Vw=Vw, z=zsym, prof=prof, ideal=ideal, grid=grid, conc=conc, flx=flx, mi=mi, flux=flux, cache=cache)))
     return out
